@@ -29,7 +29,6 @@ from setdefgen import val_str
 FID_BOOL = {"C01": "C01-boolean-default-true", "C02": "C06-default-boolean-true-octet", "C03": "C01-boolean-default-true"}
 FID_SETPER = "C01-set-no-per-oer"
 FID_XERNL = "C01-xer-trailing-newline"
-FID_SETCMP = "C01-set-compare-default"
 TIMES = {}
 
 
@@ -175,24 +174,6 @@ def explicit_true(tree, v):
             if m[0] == "P" and x[0] == "!" and explicit_true(m[1], x[1]):
                 return True
             if m[0] in ("Q", "W", "X") and explicit_true(m, x):
-                return True
-    return False
-
-
-def explicit_dflt_in_set(tree, v):
-    """a SET member with a DEFAULT stores a value equal to the default"""
-    k = tree[0]
-    if k == "X":
-        return explicit_dflt_in_set(tree[2], v)
-    if k in ("Q", "W"):
-        for m, x in zip(tree[2], v[1]):
-            if m[0] == "D":
-                if k == "W" and x[0] == "!" and x[1] == m[1] and type(x[1]) == type(m[1]):
-                    return True
-            elif m[0] == "P":
-                if x[0] == "!" and explicit_dflt_in_set(m[1], x[1]):
-                    return True
-            elif explicit_dflt_in_set(m, x):
                 return True
     return False
 
@@ -483,10 +464,6 @@ def classify_rt(run, prop, c, line, out):
         f = st.split(":")
         if syn == "xer" and len(f) == 3 and f[0] == "DEC" and f[1] == "OK" and "/" in f[2] and int(f[2].split("/")[0]) + 1 == int(f[2].split("/")[1]):
             run.known_finding(FID_XERNL, line[:200])
-            continue
-        if st == "CMP" and " xer " in line and explicit_dflt_in_set(c["tree"], c["v"]):
-            # SET_compare has no DEFAULT clause (SEQUENCE_compare has): stored default vs absent member
-            run.known_finding(FID_SETCMP, line[:200])
             continue
         if syn in ("cper", "coer") and st.startswith("ENCFAIL") and set_encoded(c["tree"], c["v"]) and c["uper" if syn == "cper" else "oer"] == "NONE":
             run.known_finding(FID_SETPER, line[:200])
